@@ -18,12 +18,14 @@ package types
 //@   panics never
 //@   assigns nothing
 //@   ensures (r == nil) == (p == nil)
+//@   ensures implies(p != nil, r.BeginRow == p.BeginRow && r.BeginCol == p.BeginCol && r.Row == p.Row && r.Col == p.Col && (r.Module == nil) == (p.Module == nil)) @C17
 
 //@ func (*Position).Close(c, here) (r)
 //@   requires c != nil && here != nil
 //@   panics never
 //@   assigns nothing
 //@   ensures r != nil
+//@   ensures r.BeginRow == c.BeginRow && r.BeginCol == c.BeginCol && r.Row == here.Row && r.Col == here.Col && r.Module == c.Module @C17
 
 //@ func (Token).GetPosition(token) (r)
 //@   panics never
